@@ -21,6 +21,9 @@ pub enum Kind {
 pub enum KeyTy {
     U64,
     Tracked,
+    /// drop-tracked keys with plain values / plain keys with drop-tracked values (drop glue of one kind only)
+    TrackedKeys,
+    TrackedVals,
 }
 
 /// Iterator families (C14) — also used to address a write through a mutable iterator.
@@ -425,10 +428,41 @@ pub fn mutators(cfg: &Cfg) -> Vec<Op> {
         }
         Kind::TwoQ | Kind::Arc | Kind::Wtlfu => {}
     }
+    // writes through the first item of every mutable iterator family of every list (the accessors are
+    // hand-copied per list: a write must land in the list the accessor names)
+    if two && !cfg.lean_ops && matches!(cfg.kind, Kind::Raw | Kind::TwoQ | Kind::Arc) {
+        let nl = match cfg.kind {
+            Kind::Raw => 1,
+            Kind::TwoQ => 3,
+            _ => 4,
+        };
+        for li in 0..nl {
+            for fam in [IterFam::IterMut, IterFam::IterLruMut, IterFam::ValuesMut, IterFam::ValuesLruMut] {
+                v.push(Op::IterW(li, fam, 0));
+            }
+        }
+        if cfg.kind == Kind::Raw {
+            v.push(Op::IterW(0, IterFam::MutIntoIter, 0));
+        }
+    }
     if cfg.with_clone && matches!(cfg.kind, Kind::Raw | Kind::Slru | Kind::Wtlfu) {
         v.push(Op::CloneReplace);
     }
     v
+}
+
+/// which entry `IterW(list, fam, n)` addresses in a snapshot: (list index, position)
+pub fn iterw_target(snap: &Snap, list: u8, fam: IterFam, n: u8) -> Option<(usize, usize)> {
+    let l = snap.lists.get(list as usize)?;
+    let n = n as usize;
+    if n >= l.len() {
+        return None;
+    }
+    match fam {
+        IterFam::IterMut | IterFam::ValuesMut | IterFam::MutIntoIter => Some((list as usize, n)),
+        IterFam::IterLruMut | IterFam::ValuesLruMut => Some((list as usize, l.len() - 1 - n)),
+        _ => None,
+    }
 }
 
 /// Read-only operations, run in every state (C13) — they are not transitions.
